@@ -30,6 +30,7 @@ var suitesByProp = map[string][]func(*runner, *rng){
 	"C07": {suiteConvert, suiteConvertModel, suiteConvertOps, suiteConvertCLI, suiteConvertRich, suiteConvertPlain},
 	"C20": {suiteConcurrency},
 	"C18": {suiteFaults},
+	"C03": {suiteTtml},
 }
 
 func readRepoFile(rel string) ([]byte, error) { return os.ReadFile(repoDir + "/" + rel) }
